@@ -672,6 +672,13 @@ pub fn run_c18(tier: Tier) -> i32 {
         secs: tier.pick(vec![1, 15, 899, 900, 3600, 691_200], vec![1, 15, 899, 900, 3600, 691_200]),
     };
     run.explore("vAMM TWAP", vparams(&m), &m, &[vec![]], &Limits::new(tier.pick(4, 6)));
+    // a long history: trades in 120 consecutive 10-second blocks, then every sequence to the bound
+    let mut busy = vec![];
+    for i in 0..120 {
+        busy.push(VAct::SwapIn { add: i % 2 == 0, quote: 7 * dd + 3, limit: 0, over: true });
+        busy.push(VAct::Blk { secs: 10 });
+    }
+    run.explore("vAMM TWAP after 120 busy blocks", vparams(&m), &m, &[busy], &Limits::new(tier.pick(2, 3)));
     let mut p = VModel {
         cfg: VCfg { quote_reserve: 1000 * dd, base_reserve: 100 * dd, decimals: 6, fluct: 0, real_feed: true },
         oracle: step_c18_feed,
